@@ -76,6 +76,13 @@ def gen_case(rng, idx, force=None):
     # function that may also declare (and write, at its top level) a module global
     c['cf_write'] = ['x%d' % i for i in range(rng.choice([0, 0, 1, 2, 3]))] if has_closure and not is_lambda else []
     c['decl_global'] = has_closure and not is_lambda and rng.random() < 0.5
+    # the function under test carries __wrapped__ (it is the WRAPPER): functools.wraps decorator, update_wrapper by hand,
+    # __wrapped__ set manually to an unrelated function, or the outer of two stacked wraps-wrappers
+    c['wrap'] = None
+    if kind in ('nested', 'toplevel', 'loop', 'factory_loop', 'method') and rng.random() < 0.3:
+        c['wrap'] = rng.choice(['wraps', 'wraps', 'update_wrapper', 'manual', 'stacked'])
+    c['wrap_sig'] = rng.choice(['star', 'own', 'own'])      # wrapper takes (*va, **vk) or has its own parameters
+    c['wrap_calls'] = rng.random() < 0.7                     # the wrapper calls (closes over) what it wraps
     c['decorated'] = (rng.random() < 0.4) and not is_lambda and kind not in ('method', 'classmethod')
     c['doc'] = (rng.random() < 0.3) and not is_lambda
     c['future_annotations'] = rng.random() < 0.15
@@ -152,6 +159,22 @@ def normalise(c):
         c['sibling_conv'] = False
     c.setdefault('falsy_self', None); c.setdefault('namespaces', 1); c.setdefault('global_write', False)
     c.setdefault('bind', 'bound'); c.setdefault('cf_write', []); c.setdefault('decl_global', False)
+    c.setdefault('wrap', None); c.setdefault('wrap_sig', 'own'); c.setdefault('wrap_calls', False)
+    if kind not in ('nested', 'toplevel', 'loop', 'factory_loop', 'method'):
+        c['wrap'] = None
+    if kind == 'method' and c['wrap']:
+        c['wrap'] = 'wraps'
+    if c['wrap']:
+        # functools.wraps copies __annotations__ of the wrapped function over the wrapper's: keep both unannotated
+        c['ret_ann'] = None
+        for p in c['params']:
+            p['ann'] = None
+        if c['wrap_sig'] == 'star':
+            c['params'] = [{'name': 'va', 'kind': 'varpos', 'default': None, 'ann': None},
+                           {'name': 'vk', 'kind': 'varkw', 'default': None, 'ann': None}]
+        c['clear'] = None
+    else:
+        c['wrap_calls'] = False
     if kind == 'toplevel' or is_lambda:
         c['cf_write'] = []; c['decl_global'] = False
     if kind != 'method':
@@ -170,12 +193,13 @@ def shape_key(c):
             c['body'], c['super'], c['decorated'], c['directive'], c['clear'], c['api'], c['recursive'],
             c['future_annotations'], c['ret_ann'], c['sibling_conv'], c['ninst'], c.get('bind'),
             c.get('falsy_self'), c.get('namespaces', 1), c.get('global_write', False),
-            len(c.get('cf_write', [])), c.get('decl_global', False))
+            len(c.get('cf_write', [])), c.get('decl_global', False), c.get('wrap'),
+            c.get('wrap_sig') if c.get('wrap') else None, c.get('wrap_calls', False))
 
 
 def nontrivial(c):
     return bool(c['free'] or c['free_nested'] or c['free_write'] or c['kind'] in ('method', 'classmethod')
-                or any(p['default'] for p in c['params']) or c.get('namespaces', 1) > 1 or c.get('cf_write'))
+                or any(p['default'] for p in c['params']) or c.get('namespaces', 1) > 1 or c.get('cf_write') or c.get('wrap'))
 
 
 # ------------------------------------------------------------------------------------------------ rendering
@@ -260,6 +284,8 @@ def render_function(c, name, indent, first=None, it=False, is_method=False):
         L.append(I + '@_deco')
     if is_method == 'classmethod':
         L.append(I + '@classmethod')
+    if c.get('wrap') in ('wraps', 'stacked'):
+        L.append(I + '@functools.wraps(%s)' % wrap_target(c))
     ret = (' -> ' + _ann_expr(c['ret_ann'], c)) if c.get('ret_ann') else ''
     L.append(I + 'def %s(%s)%s:' % (name, render_params(c, first, it), ret))
     B = I + '    '
@@ -337,6 +363,8 @@ def render_function(c, name, indent, first=None, it=False, is_method=False):
             L.append(B + 'for jf%d in range(2):' % j)
             L.append(B + "    %s = ('for', jf%d, acc)" % (x, j))
     items = result_items(c) + ['acc'] + extra
+    if c.get('wrap') and c.get('wrap_calls'):
+        items.append('%s(*va, **vk)' % wrap_target(c) if c.get('wrap_sig') == 'star' else '%s(acc)' % wrap_target(c))
     if d == 'closure_used':
         items.append('mdir.__name__')
     if c['super'] in ('super', 'both'):
@@ -354,6 +382,35 @@ def render_lambda(c, it=False):
     return 'lambda %s: (%s,)' % (render_params(c, None, it), ', '.join(items))
 
 
+def wrap_target(c):
+    return 'mid' if c.get('wrap') == 'stacked' else 'wt'
+
+
+def wrapped_defs(c, I):
+    """The function(s) the function under test wraps: another signature, another body."""
+    if not c.get('wrap'):
+        return []
+    u = c.get('uid', 'u')
+    L = [I + 'def wt(x=0, factor=2, *rest, **more):',
+         I + '    uid = %r' % (u + '-wt'),
+         I + "    return ('wrapped', x, factor, len(rest), sorted(more))"]
+    if c['wrap'] == 'stacked':
+        L += [I + '@functools.wraps(wt)',
+              I + 'def mid(*a, **k):',
+              I + '    uid = %r' % (u + '-mid'),
+              I + "    return ('mid', wt(*a, **k))"]
+    return L
+
+
+def wrap_lines(c, I, fname='f'):
+    """Statements attaching __wrapped__ after the def (the decorator forms are on the def itself)."""
+    if c.get('wrap') == 'update_wrapper':
+        return [I + 'functools.update_wrapper(%s, wt)' % fname]
+    if c.get('wrap') == 'manual':
+        return [I + '%s.__wrapped__ = wt' % fname]
+    return []
+
+
 def free_names(c):
     """All variables of the enclosing function the function under test closes over."""
     out = list(c['free']) + list(c['free_nested']) + list(c['free_write']) + list(c.get('cf_write', []))
@@ -361,6 +418,8 @@ def free_names(c):
         out.append('mdir')
     if c['directive'] == 'arg_closure_only':
         out.append('dtyp')
+    if c.get('wrap') and c.get('wrap_calls') and c['kind'] != 'toplevel':
+        out.append(wrap_target(c))
     return out
 
 
@@ -372,7 +431,8 @@ def render(c):
     L = []
     if c['future_annotations']:
         L.append('from __future__ import annotations')
-    L += ['import malt as _malt_mod',
+    L += ['import functools',
+          'import malt as _malt_mod',
           'from malt.lang import directives as _dirs',
           "COUNTS = {'default': 0, 'deco': 0}",
           'def _dflt(v):',
@@ -386,13 +446,18 @@ def render(c):
           'g0 = 1000',
           'g1 = [2000]',
           'gw = None',
+          'def call_f(fn, *a, **k):',
+          '    uid = %r' % (c.get('uid', 'u') + '-callf'),
+          '    return fn(*a, **k)',
           'def call_m(o, *a, **k):',
           '    uid = %r' % (c.get('uid', 'u') + '-caller'),
           '    return o.m(*a, **k)',
           '']
     kind = c['kind']
     if kind == 'toplevel':
+        L += wrapped_defs(c, '')
         L += render_function(c, 'f', 0)
+        L += wrap_lines(c, '')
         L.append('')
         L.append('def build(convert):')
         L.append("    out = {'setters': {}, 'getters': {}, 'inst_setters': [], 'inst_getters': [], 'ns': [globals()]}")
@@ -406,6 +471,7 @@ def render(c):
         L.append("        fk = _types.FunctionType(f.__code__, ns, f.__name__, f.__defaults__, None)")
         L.append("        fk.__kwdefaults__ = f.__kwdefaults__")
         L.append("        fk.__annotations__ = dict(f.__annotations__)")
+        L.append("        fk.__dict__.update(f.__dict__)")
         L.append("        out['f'].append(fk)")
         L.append("        out['ns'].append(ns)")
         L.append("    for ns in out['ns']:")
@@ -433,6 +499,7 @@ def render(c):
         L.append('    for it in range(%d):' % c['ninst'])
         if kind == 'loop':
             L += render_function(c, 'f', 8, it=True)
+            L += wrap_lines(c, '        ')
         else:
             L.append('        f = ' + render_lambda(c, it=True))
         L.append("        out['f'].append(f)")
@@ -464,18 +531,21 @@ def _enclosing_vars(c, I, it=False):
             L.append(I + 'mdir = _malt_mod')
         elif n == 'dtyp':
             L.append(I + 'dtyp = int')
+        elif n in ('wt', 'mid'):
+            pass
         else:
             L.append(I + '%s = %d%s' % (n, base_value(n), ' + 100 * it' if it else ''))
     if any(p['default'] == 'closure' for p in c['params']):
         L.append(I + 'dshared = [5]')
     if any(p['ann'] == 'encl' for p in c['params']) or c.get('ret_ann') == 'encl':
         L.append(I + 'TAnn = int')
+    L += wrapped_defs(c, I)
     return L
 
 
 def _accessors(c, I, per_instance):
     L = []
-    names = [n for n in free_names(c) if n not in ('mdir', 'dtyp')]
+    names = [n for n in free_names(c) if n not in ('mdir', 'dtyp', 'wt', 'mid')]
     for n in names:
         L.append(I + 'def set_%s(v):' % n)
         L.append(I + '    nonlocal %s' % n)
@@ -503,6 +573,7 @@ def _enclosing(c, I, it=False):
     ind = len(I)
     if kind in ('nested', 'factory_loop'):
         L += render_function(c, 'f', ind, it=it)
+        L += wrap_lines(c, I)
         L += _clear_lines(c, I)
     elif kind == 'lambda':
         L.append(I + 'f = ' + render_lambda(c))
